@@ -13,7 +13,7 @@ func summary(s Script, tr Trace) any {
 func TestC04(t *testing.T) {
 	evid.Run(t, evid.Prop[Script]{
 		ID:   "C04",
-		Rule: "rapid-generated limit scripts (rate, input capacity, producer gaps around the interval, consumer delays) run on a fake clock; non-trivial = at least 2 rate batches were needed (N > Q) and a producer stall longer than the interval was followed by a burst, or the consumer was slow with N > Q; distinct = distinct script JSON",
+		Rule: "rapid-generated limit scripts (rates from 1 per ns to MaxUint64 per hour, input capacity 0..300, producer gaps around the interval, producer started before or after creation, consumer delays) run on a fake clock; non-trivial = at least 2 rate batches were needed (N > Q) and a producer stall longer than the interval was followed by a burst, or the consumer was slow with N > Q; distinct = distinct script JSON",
 		Gen:  Gen,
 		Run: func(s Script) evid.Outcome {
 			tr := Execute(t, s, false)
@@ -33,14 +33,15 @@ func TestC04(t *testing.T) {
 func TestC12(t *testing.T) {
 	evid.Run(t, evid.Prop[Script]{
 		ID:   "C12",
-		Rule: "rapid-generated limit scripts on a fake clock; non-trivial = the element count is in a boundary class (0, <Q, =Q, multiple of Q, Q=1) or the input is unbuffered, and the consumer was always ready so the timing clauses applied; distinct = distinct script JSON",
+		Rule: "rapid-generated limit scripts on a fake clock; non-trivial = the element count is in a boundary class (0, <Q, =Q, multiple of Q, Q=1) or the input is unbuffered, and the consumer was always ready, or steady and faster than the limit, so the timing clauses applied; distinct = distinct script JSON",
 		Gen:  Gen,
 		Run: func(s Script) evid.Outcome {
 			tr := Execute(t, s, false)
 			n, _, cl := s.Shape()
 			o := evid.Outcome{Classes: cl, Summary: summary(s, tr)}
 			boundary := n == 0 || uint64(n) <= s.Q || uint64(n)%s.Q == 0 || s.Q == 1 || s.InCap == 0
-			o.NonTrivial = boundary && s.alwaysReady()
+			_, steady := s.steadyConsumer()
+			o.NonTrivial = boundary && (s.alwaysReady() || steady)
 			o.Err = CheckC12(s, tr)
 			o.NoShrink = tr.Spin
 			return o
